@@ -7,7 +7,8 @@ CFG = dict(
         props_files=["ElysModel/Props/C05.lean", "ElysModel/Props/C05Src.lean"],
         runs=[dict(mode="c05", n_quick=2500, n_thorough=72000, shards_quick=8, shards_thorough=14),
               dict(hist_run(nq=200, nt=400, sq=4, st=8, focus="lp."), driver="C05H"),
-              dict(hist_run(nq=200, nt=400, sq=4, st=8, focus="amm."), driver="C05H")],
+              dict(hist_run(nq=200, nt=400, sq=4, st=8, focus="amm."), driver="C05H"),
+              dict(scn_run("c05"), driver="C05H")],
         rule="differential cases on the real x/amm/types functions (Pool.ExitPool, CalcExitPool, Pool.JoinPool with all assets, "
              "CalcJoinPoolNoSwapShares, GetMaximalNoSwapLPAmount, GetMaximalNoSwapLPAmount->JoinPool, JoinPool->ExitPool round trips) on generated "
              "non-oracle pools of 2-4 assets: balances and share supplies log-uniform 10^0..10^30, lopsided pools, deposits from 1 unit to 10 x the pool, "
